@@ -248,11 +248,82 @@ def raw_observe(root, C, dts, fresh, prev_inow):
     return o
 
 
+IMPL_ROWS_STRAT = {"value": "value", "price": "price", "cash": "cash", "fees": "fees", "flows": "flows", "bop": "bidoffer_paid"}
+IMPL_ROWS_SEC = {"value": "value", "pos": "position", "outl": "outlay", "bop": "bidoffer_paid"}
+
+
+def impl_eligible(C, lazy):
+    """Trees inside the scope of the implementation-shaped model BtImpl."""
+    return (not lazy) and not any(C["fi"]) and all(k in ("strat", "sec") for k in C["kind"]) and not C.get("paper")
+
+
+def impl_snapshot(root, C, dts, dec, decw):
+    """The private fields of the live tree that BtImpl models, read without
+    touching any property (no lazy update is triggered).  Floats are decoded."""
+    N = C["N"]
+    objs = resolve(root, C, [None] * N)
+    T = C["T"]
+
+    def idx(now):
+        return 0 if (isinstance(now, int) and now == 0) else int(dts.get_loc(now)) + 1
+
+    z = [0, 1]
+    o = {"stale": bool(root.stale), "bankrupt": bool(root.bankrupt)}
+    for k in ("now", "cap", "val", "ntl", "wgt", "prc", "lval", "lprc", "nfl", "lfee", "bop", "bo", "pos", "lpos", "out"):
+        o[k] = []
+    o["need"] = []
+    rows = {k: [] for k in ("value", "price", "cash", "fees", "flows", "bop", "pos", "outl")}
+    for i in range(N):
+        n = objs[i]
+        strat = C["kind"][i] == "strat"
+        o["now"].append(idx(n.now))
+        o["val"].append(dec(float(n._value)))
+        o["ntl"].append(dec(float(n._notl_value)))
+        o["wgt"].append(decw(float(n._weight)))
+        o["bop"].append(dec(float(n._bidoffer_paid)))
+        if strat:
+            o["cap"].append(dec(float(n._capital)))
+            o["prc"].append(decw(float(n._price)))
+            o["lval"].append(dec(float(n._last_value)))
+            o["lprc"].append(decw(float(n._last_price)))
+            o["nfl"].append(dec(float(n._net_flows)))
+            o["lfee"].append(dec(float(n._last_fee)))
+            o["bo"].append(z)
+            o["pos"].append(z)
+            o["lpos"].append(z)
+            o["out"].append(z)
+            o["need"].append(False)
+            cols = IMPL_ROWS_STRAT
+        else:
+            o["cap"].append(z)
+            o["prc"].append(dec(float(n._price)))
+            o["lval"].append(z)
+            o["lprc"].append([100, 1])
+            o["nfl"].append(z)
+            o["lfee"].append(z)
+            o["bo"].append(dec(float(n._bidoffer)))
+            o["pos"].append(dec(float(n._position)))
+            o["lpos"].append(dec(float(n._last_pos)))
+            o["out"].append(dec(float(n._outlay)))
+            o["need"].append(bool(n._needupdate))
+            cols = IMPL_ROWS_SEC
+        for k in rows:
+            col = cols.get(k)
+            if col is None or col not in n.data.columns:
+                rows[k].append([z] * T)
+            else:
+                d_ = decw if (k == "price") else dec
+                rows[k].append([d_(float(v)) for v in n.data[col].values[:T]])
+    o["rows"] = rows
+    return o
+
+
 class Recorder:
     """Executes ops on a live tree and records one event per outermost call."""
 
-    def __init__(self, C, lazy=False, root=None, dts=None):
+    def __init__(self, C, lazy=False, root=None, dts=None, impl=False):
         self.C = C
+        self.impl = bool(impl) and impl_eligible(C, lazy)
         if root is None:
             self.root, self.objs, self.dts = build(C, lazy=lazy)
         else:  # record an existing tree (backtest-level driver)
@@ -352,6 +423,12 @@ class Recorder:
         }
         if extra:
             ev.update(extra)
+        if self.impl:
+            # private state right after the call returned, before anything is read
+            try:
+                ev["impl"] = impl_snapshot(self.root, C, self.dts, self.dec, self.decw)
+            except Exception as e:  # noqa: BLE001
+                ev["impl_error"] = type(e).__name__ + ": " + str(e)[:120]
         if exc != "none":
             ev["fresh"] = False
             ev["trades"] = self._trades()
@@ -504,11 +581,11 @@ def _same(a, b):
     return all(k in b and eq(a[k], b[k]) for k in keys)
 
 
-def run_scenario(scn, tid=0, lazy=False):
+def run_scenario(scn, tid=0, lazy=False, impl=False):
     """Execute a scenario; returns the trace dict (stops at the first raise)."""
     C = scn["C"]
     try:
-        rec = Recorder(C, lazy=lazy)
+        rec = Recorder(C, lazy=lazy, impl=impl)
     except Exception as e:  # noqa: BLE001
         return {"tid": tid, "C": C, "events": [], "setup_exc": type(e).__name__ + ": " + str(e)[:200]}
     for op in scn["ops"]:
@@ -520,10 +597,10 @@ def run_scenario(scn, tid=0, lazy=False):
     return tr
 
 
-def run_online(C, gen, tid=0, lazy=False):
+def run_online(C, gen, tid=0, lazy=False, impl=False):
     """Execute a history produced online by gen (treegen.HistoryGen)."""
     try:
-        rec = Recorder(C, lazy=lazy)
+        rec = Recorder(C, lazy=lazy, impl=impl)
     except Exception as e:  # noqa: BLE001
         return {"tid": tid, "C": C, "events": [], "ops": [], "setup_exc": type(e).__name__ + ": " + str(e)[:200]}
     ops = []
